@@ -1135,8 +1135,8 @@ def plan_C18(tier):
             q.arch = arch
             q.name += "." + (arch or "lp64")
             qs.append(q)
-        for node in lookup_shapes()[:(3 if tier == "quick" else 10)]:
-            q = shape_script_query(7, node, ["GO", "F", "F", "LO"], "lookup", 1, checks="mem")
+        for node in [lookup_shapes()[i] for i in ((0, 3) if tier == "quick" else (0, 1, 3, 4, 6, 7, 9))]:
+            q = shape_script_query(7, node, ["GO", "F"], "lookup", 1, checks="mem", tight=True, timeout=1200)
             q.arch = arch
             q.name += "." + (arch or "lp64")
             qs.append(q)
